@@ -26,7 +26,6 @@
 package main
 
 import (
-	"regexp"
 	"bytes"
 	"encoding/json"
 	"fmt"
@@ -34,6 +33,7 @@ import (
 	"io"
 	"os"
 	"path/filepath"
+	"regexp"
 	"sort"
 	"strconv"
 	"strings"
@@ -389,6 +389,23 @@ type harness struct {
 	sites   []siteRec
 	caseIdx int
 	casesE  []string // cases of the "late" sessions, for C35.FailModel (written as cases_fail_NNN.v)
+	pending []*pendingDiff
+}
+
+// pendingDiff: the instance and one of its specialisations (L1 in the same interpreter, or the plain-Go copy L2 evaluated
+// by gomacro) returned different results.  Decided once the compiled-Go result of the plain copy is known (decide()).
+type pendingDiff struct {
+	sess, n  int
+	kind     string // "L1" | "L2"
+	f        vh.Failure
+	inst     string // norm(result of the instance)
+	instErr  string
+	plain    string // L2 only: norm(result of the plain-Go copy evaluated by gomacro in the session)
+	fresh    string // norm(result of the plain-Go copy evaluated FIRST, in the same kind of scope, in a fresh interpreter)
+	freshErr string
+	freshSrc string // that generics-free program
+	instance string
+	scope    string
 }
 
 type probeRec struct {
@@ -397,18 +414,19 @@ type probeRec struct {
 }
 
 type Session struct {
-	named map[string]*Ty
-	tmpl  map[string]*Template
-	h     *harness
-	id    int
-	ir    *fast.Interp
-	sp    *Specs
-	env   *coqEnv
-	pn    map[string][]string // parameter names per template
-	seen  map[string]bool     // canonical instances instantiated (top-level of an op) so far
-	keys  map[string]xr.Key   // canonical type instance -> key of the first probe
-	typs  map[string]xr.Type
-	first map[string]int // canonical type instance -> index of the first probe op
+	named  map[string]*Ty
+	tmpl   map[string]*Template
+	h      *harness
+	id     int
+	ir     *fast.Interp
+	sp     *Specs
+	env    *coqEnv
+	pn     map[string][]string // parameter names per template
+	seen   map[string]bool     // canonical instances certainly instantiated so far: closure (arguments, declaration bodies) of every reference a successfully compiled source spelled
+	maybe  map[string]bool     // same closure for sources whose compilation failed: completed inner instances stay cached, the others do not
+	keys   map[string]xr.Key   // canonical type instance -> key of the first probe
+	typs   map[string]xr.Type
+	first  map[string]int // canonical type instance -> index of the first probe op
 	probes []probeRec
 	// correspondence
 	cops  []string
@@ -436,7 +454,7 @@ const K0, K1, K2, K3, K4 = 0, 1, 2, 3, 4`
 
 func (h *harness) newSession(id int, r *vh.Rng, late bool) *Session {
 	s := &Session{h: h, id: id, named: map[string]*Ty{}, tmpl: map[string]*Template{}, env: newCoqEnv(), pn: map[string][]string{},
-		seen: map[string]bool{}, keys: map[string]xr.Key{}, typs: map[string]xr.Type{}, first: map[string]int{},
+		seen: map[string]bool{}, maybe: map[string]bool{}, keys: map[string]xr.Key{}, typs: map[string]xr.Type{}, first: map[string]int{},
 		late: late, declared: map[string]bool{}, out: &bytes.Buffer{}}
 	s.env.late = late
 	s.named["LateRec"] = parseTy("struct { N int; S string }")
@@ -568,15 +586,17 @@ type evalRes struct {
 	compiled bool // the source compiled (instantiations happen while compiling); err is then a run-time error
 }
 
-func (s *Session) eval(src string) evalRes {
+func (s *Session) eval(src string) evalRes { return evalIn(s.ir, src) }
+
+func evalIn(ir *fast.Interp, src string) evalRes {
 	var res evalRes
 	p := vh.Catch(func() {
-		e := s.ir.Compile(src)
+		e := ir.Compile(src)
 		res.compiled = true
 		if e == nil {
 			return
 		}
-		vals, types := s.ir.RunExpr(e)
+		vals, types := ir.RunExpr(e)
 		res.types = types
 		if len(vals) > 0 && vals[0].IsValid() && vals[0].Kind().String() == "string" {
 			res.out = vals[0].String()
@@ -813,7 +833,7 @@ func (s *Session) runOp(r *vh.Rng, forced *Op) {
 	key := fmt.Sprintf("C35:%s:%s", cinst, scope)
 	h.wd.Beat(map[string]interface{}{"session": s.id, "op": op})
 	if pend := s.pending(t); len(pend) > 0 {
-		s.failFirst(t, args, inst, scope, n, pend)
+		s.failFirst(t, args, inst, scope, n, pend, local)
 	}
 	if strings.HasPrefix(scope, "nest:") {
 		h.rep.Dist(fmt.Sprintf("scope:nest(%d layers)", strings.Count(scope, ",")))
@@ -886,9 +906,10 @@ func (s *Session) runOp(r *vh.Rng, forced *Op) {
 	szAfter, ptrAfter := s.sizes()
 	s.hist = append(s.hist, op)
 	if compiled {
-		s.seen[cinst] = true
+		s.mark(s.seen, refs)
 		s.record(refs, false, -1)
 	} else {
+		s.mark(s.maybe, refs)
 		s.dirty = true
 	}
 	ti := s.env.gens[t.Name]
@@ -905,7 +926,9 @@ func (s *Session) runOp(r *vh.Rng, forced *Op) {
 					}
 				}
 			}
-		} else if local == nil && szAfter[ti] <= szBefore[ti] {
+		} else if local == nil && !s.maybe[cinst] && szAfter[ti] <= szBefore[ti] {
+			// (generic, arguments) was never instantiated before - neither spelled in an evaluated source (at any depth of
+			// its type arguments) nor reached through the body of an instantiated declaration
 			s.fail(key, "memo: a new argument list did not create a new instance (collision)", in, szAfter[ti], szBefore[ti]+1)
 		}
 	}
@@ -932,12 +955,15 @@ func (s *Session) runOp(r *vh.Rng, forced *Op) {
 			c1 = rL1.compiled
 		}
 		if c1 {
+			s.mark(s.seen, refs1)
 			s.record(refs1, false, -1)
 		} else {
+			s.mark(s.maybe, refs1)
 			s.dirty = true
 		}
 		if norm(rGen) != norm(rL1) {
-			s.fail(key, "instance and textual specialisation (L1, same interpreter) behave differently", in, norm(rGen)+" "+rGen.err, norm(rL1)+" "+rL1.err+"\n"+d1+"\n"+e1)
+			f := vh.Failure{Key: key, What: "instance and textual specialisation (L1, same interpreter) behave differently", Input: in, Got: norm(rGen) + " " + rGen.err, Want: norm(rL1) + " " + rL1.err + "\n" + d1 + "\n" + e1}
+			s.differs("L1", f, t, args, inst, op, x.holes, localDecl, rGen, "")
 		}
 		// type of a function instance = type of its L1 copy
 		if t.Kind == "func" && rGen.err == "" && rL1.err == "" {
@@ -991,7 +1017,8 @@ func (s *Session) runOp(r *vh.Rng, forced *Op) {
 			rL2 = s.eval("(" + e2 + ")")
 		}
 		if norm(rGen) != norm(rL2) {
-			s.fail(key, "instance and monomorphic plain-Go copy (L2, evaluated by gomacro) behave differently", in, norm(rGen)+" "+rGen.err, norm(rL2)+" "+rL2.err+"\n"+newDecls+"\n"+e2)
+			f := vh.Failure{Key: key, What: "instance and monomorphic plain-Go copy (L2, evaluated by gomacro) behave differently", Input: in, Got: norm(rGen) + " " + rGen.err, Want: norm(rL2) + " " + rL2.err + "\n" + newDecls + "\n" + e2}
+			s.differs("L2", f, t, args, inst, op, x.holes, localDecl, rGen, norm(rL2))
 		}
 		s.pkg.sites[n] = e2
 		h.sites = append(h.sites, siteRec{sess: s.id, n: n, key: key, op: op, gen: norm(rL2), err: rL2.err})
@@ -1012,12 +1039,185 @@ func (s *Session) runOp(r *vh.Rng, forced *Op) {
 	}
 }
 
+// mark adds to set every (generic, arguments) that compiling a source which spells the closed references refs
+// instantiates: the references themselves, the instances among their type arguments (at any depth) and, transitively,
+// the references of the declaration bodies under the substitution (gomacro compiles the body when it creates the
+// instance).  Computed from the template catalogue only.
+func (s *Session) mark(set map[string]bool, refs []*Ty) {
+	for _, t := range refs {
+		s.mark1(set, t)
+	}
+}
+func (s *Session) mark1(set map[string]bool, t *Ty) {
+	if t == nil {
+		return
+	}
+	for _, e := range t.E {
+		s.mark1(set, e)
+	}
+	for _, e := range t.Outs {
+		s.mark1(set, e)
+	}
+	if t.K != "inst" {
+		return
+	}
+	c := canon(t)
+	if set[c] {
+		return
+	}
+	set[c] = true
+	tp := s.tmpl[t.Name]
+	if tp == nil {
+		return
+	}
+	var inner []*Ty
+	s.declSrc(tp, &Mode{kind: mGen, args: t.E, rec: &inner}, "x")
+	for _, r := range inner {
+		s.mark1(set, r)
+	}
+}
+
+// differs: the instance and a specialisation disagree.  Inside one interpreter the specialisation is always evaluated
+// AFTER the instance, and the plain-Go copy is fed to gomacro in the harness' own way (all new types in one source): both
+// can expose behaviour of gomacro on generics-free code (other properties) instead of a defect of the instantiation.  So
+// the verdict is taken by decide() when the compiled-Go result of the plain copy is known, with one more observation
+// made here: the plain copy evaluated FIRST, in the same kind of scope, in a fresh interpreter without any generic.
+func (s *Session) differs(kind string, f vh.Failure, t *Template, args []*Ty, inst *Ty, op Op, holes map[int]*holeVal, localDecl string, rGen evalRes, plain string) {
+	if t.NoGo {
+		s.h.rep.Fail(f) // no plain-Go copy exists (CTI methods of basic types)
+		return
+	}
+	res, src := s.freshPlain(t, args, inst, op, holes, localDecl)
+	s.h.pending = append(s.h.pending, &pendingDiff{sess: s.id, n: op.N, kind: kind, f: f, inst: norm(rGen), instErr: rGen.err, plain: plain,
+		fresh: norm(res), freshErr: res.err, freshSrc: src, instance: canon(inst), scope: op.Scope})
+}
+
+func (s *Session) freshPlain(t *Template, args []*Ty, inst *Ty, op Op, holes map[int]*holeVal, localDecl string) (evalRes, string) {
+	sp := &Specs{sess: s, have: map[string]bool{}}
+	m2 := &Mode{kind: mL2, args: args, sp: sp}
+	x2 := &expCtx{holes: holes, seed: op.Seed, self: inst}
+	x2.fn = m2.ty(inst)
+	e2 := s.expand(t.Drv, m2, x2)
+	scope := op.Scope
+	if scope == "localtype" {
+		x3 := &expCtx{holes: map[int]*holeVal{}, seed: op.Seed + 1, self: inst, fn: x2.fn}
+		e2 = e2 + ` + "|" + ` + s.expand(t.Drv, m2, x3)
+		scope = "func" // the local type is a package-level type of the plain copy
+	}
+	if scope == "infer" {
+		scope = "top"
+	}
+	var tys, fns, all []string
+	if localDecl != "" {
+		tys = append(tys, localDecl)
+	}
+	for _, d := range sp.all {
+		if strings.HasPrefix(d, "type ") {
+			tys = append(tys, d)
+		} else {
+			fns = append(fns, d)
+		}
+	}
+	ir := fast.New()
+	ir.Comp.Globals.Stderr = io.Discard
+	ir.Comp.Globals.Stdout = io.Discard
+	var res evalRes
+	setup := []string{`import "fmt"`}
+	setup = append(setup, strings.Split(sessionDecls+"\n"+globalDecls, "\n")...)
+	for _, u := range lateUnits {
+		setup = append(setup, u.Src)
+	}
+	for _, d := range setup {
+		if res = evalIn(ir, d); res.err != "" {
+			return res, d
+		}
+	}
+	all = append(all, setup...)
+	// same feeding as in the session: the types in one source (cycles), then the functions one by one
+	if len(tys) > 0 {
+		all = append(all, strings.Join(tys, "\n"))
+		res = evalIn(ir, strings.Join(tys, "\n"))
+	}
+	for _, d := range fns {
+		if res.err == "" {
+			all = append(all, d)
+			res = evalIn(ir, d)
+		}
+	}
+	decl, call := wrapScope(scope, op.N, e2, "")
+	if res.err == "" && decl != "" {
+		all = append(all, decl)
+		res = evalIn(ir, decl)
+	}
+	if res.err == "" {
+		all = append(all, call)
+		res = evalIn(ir, call)
+	}
+	return res, strings.Join(all, "\n----\n")
+}
+
+var rePos = regexp.MustCompile(`[\w./-]+\.go:\d+(:\d+)?:? ?`)
+
+func errClass(e string) string { return rePos.ReplaceAllString(e, "") }
+
+// decide: verdict on the recorded differences between an instance and its specialisations, given the compiled-Go results
+// (nil when the oracle module could not be built: every difference is then a failure)
+func (h *harness) decide(want map[string]map[int]string, diverge *[]interface{}) map[[2]int]bool {
+	handled := map[[2]int]bool{}
+	for _, p := range h.pending {
+		g, ok := want[fmt.Sprintf("s%d", p.sess)][p.n]
+		if g == "panic" {
+			g = "ERROR"
+		}
+		reason := ""
+		switch {
+		case !ok:
+		case p.kind == "L2" && p.inst == g && p.plain != g:
+			reason = "gomacro evaluates the plain-Go copy (generics-free source) differently from compiled Go; the instance agrees with compiled Go"
+		case p.fresh == p.inst && p.fresh != g && errClass(p.freshErr) == errClass(p.instErr):
+			reason = "the plain-Go copy evaluated first, in the same kind of scope, in a fresh interpreter without generics deviates from compiled Go exactly as the instance did: evaluation-order dependent behaviour of gomacro on generics-free code"
+		}
+		if reason == "" {
+			h.rep.Fail(p.f)
+			continue
+		}
+		handled[[2]int{p.sess, p.n}] = true
+		h.rep.Dist("compiled-go:plain-copy-diverges(not-C35):instance-vs-" + p.kind)
+		if len(*diverge) < 40 {
+			*diverge = append(*diverge, map[string]interface{}{"instance": p.instance, "scope": p.scope, "difference": p.f.What, "why_not_C35": reason,
+				"instance_result": p.inst + " " + p.instErr, "go": g, "gomacro_on_plain_copy_in_session": p.plain,
+				"gomacro_on_plain_copy_fresh_interpreter": p.fresh + " " + p.freshErr, "plain_go_input(fresh interpreter, one Eval per ---- block)": p.freshSrc})
+		}
+	}
+	return handled
+}
+
 // failFirst: the body of t names late units that are not declared yet.  The instantiation must fail to compile, like
 // its textual specialisation; the failed attempt must leave the instance caches of t (and of every other generic still
 // waiting for a late unit) as they were; then the missing units are declared and the caller goes on with the ordinary
 // operation: the same (generic, arguments) must now compile and behave like its textual specialisation.
-func (s *Session) failFirst(t *Template, args []*Ty, inst *Ty, scope string, n int, pend []string) {
+func (s *Session) failFirst(t *Template, args []*Ty, inst *Ty, scope string, n int, pend []string, local *Ty) {
 	h := s.h
+	sc := scope
+	localDecl := ""
+	if sc == "infer" || sc == "localtype" && local == nil {
+		sc = "func"
+	}
+	if sc == "localtype" {
+		// the attempt is made in a function body of its own: it gets its own local type (a type declared in another
+		// function body is another type, also for the model), declared in that body like the one of the operation
+		name := local.Name + "f"
+		l2 := Named(name)
+		s.named[name] = s.named[local.Name]
+		localDecl = "type " + name + " struct { P int; Q string }"
+		args = append([]*Ty(nil), args...)
+		for i, a := range args {
+			if a == local {
+				args[i] = l2
+			}
+		}
+		inst = Inst(t.Name, args...)
+	}
 	var refs []*Ty
 	mg := &Mode{kind: mGen, args: args, rec: &refs, spell: true}
 	var e string
@@ -1026,11 +1226,7 @@ func (s *Session) failFirst(t *Template, args []*Ty, inst *Ty, scope string, n i
 	} else {
 		e = "fmt.Sprint(new(" + mg.ty(inst) + ") == nil)"
 	}
-	sc := scope
-	if sc == "infer" || sc == "localtype" {
-		sc = "func"
-	}
-	decl, call := wrapScope(sc, 100000+n, e, "")
+	decl, call := wrapScope(sc, 100000+n, e, localDecl)
 	cinst := canon(inst)
 	key := fmt.Sprintf("C35:%s:%s:first-attempt-before-%s", cinst, sc, strings.Join(pend, "+"))
 	in := map[string]interface{}{"session": s.id, "seed": h.a.Seed, "generic": t.Name, "args": canonList(args), "scope": sc,
@@ -1047,8 +1243,10 @@ func (s *Session) failFirst(t *Template, args []*Ty, inst *Ty, scope string, n i
 	szAfter, _ := s.sizes()
 	if res.compiled {
 		s.fail(key, "an instantiation whose body names an undeclared identifier compiled", in, res.out+" "+res.err, "compile error")
+		s.mark(s.seen, refs)
 		s.record(refs, false, -1)
 	} else {
+		s.mark(s.maybe, refs)
 		s.recordFail(refs)
 		h.rep.Count(cinst+"|"+sc+"|first-attempt", true)
 	}
@@ -1060,8 +1258,8 @@ func (s *Session) failFirst(t *Template, args []*Ty, inst *Ty, scope string, n i
 			s.fail(key, "a failed instantiation left an entry in the instance cache of "+u.Name+" (its body cannot compile yet)", in, szAfter[i], szBefore[i])
 		}
 	}
-	// the textual specialisation fails to compile as well
-	if !t.NoL1 {
+	// the textual specialisation fails to compile as well (a package-level declaration: it cannot name a local type)
+	if !t.NoL1 && localDecl == "" {
 		var refs1 []*Ty
 		fresh := fmt.Sprintf("%s_l1f_%d", t.Name, n)
 		d1 := s.declSrc(t, &Mode{kind: mL1, args: args, self: t.Name, selfName: fresh, rec: &refs1}, fresh)
@@ -1070,8 +1268,10 @@ func (s *Session) failFirst(t *Template, args []*Ty, inst *Ty, scope string, n i
 			s.fail(key, "instance and textual specialisation (L1) differ: one compiles, the other does not", in, fmt.Sprint("instance compiled=", res.compiled, " ", res.err), fmt.Sprint("L1 compiled=", r1.compiled, " ", r1.err, "\n", d1))
 		}
 		if r1.compiled {
+			s.mark(s.seen, refs1)
 			s.record(refs1, false, -1)
 		} else {
+			s.mark(s.maybe, refs1)
 			s.recordFail(refs1)
 		}
 	}
@@ -1134,6 +1334,11 @@ func (s *Session) probe(r *vh.Rng, t *Template, inst *Ty, key string, in interfa
 		s.first[cinst] = firstIdx
 		s.keys[cinst] = k
 		s.typs[cinst] = typ
+	}
+	// the model observes the result of the LAST reference of a probe: the probed instance was recorded first (before the
+	// instances among its arguments, which the interpreter resolves first anyway) - move it to the end
+	if len(refs) > 1 && canon(refs[0]) == cinst {
+		refs = append(append([]*Ty(nil), refs[1:]...), refs[0])
 	}
 	s.record(refs, true, firstIdx)
 	for c, ok := range s.keys {
@@ -1219,12 +1424,13 @@ func (s *Session) probe(r *vh.Rng, t *Template, inst *Ty, key string, in interfa
 				s.fail(key, "memo: values of instances with permuted arguments are assignable", in, src, "compile error")
 			}
 			co := canon(other)
+			s.mark(s.seen, []*Ty{other})
 			if _, ok := s.keys[co]; !ok {
 				s.keys[co] = xr.MakeKey(ot)
 				s.typs[co] = ot
-				s.seen[co] = true
 			}
 		} else {
+			s.mark(s.maybe, []*Ty{other})
 			s.dirty = true
 		}
 	}
@@ -1311,6 +1517,8 @@ func main() {
 		"5 generic functions have bodies that read/write package-level variables and call package-level functions; every session names one of them at top level and below 0..5 nest layers (depth sweep; the measured number of run-time environments between the naming site and the declaration is in distribution env-depth-below-declaration(upn):N, printed by OptDebugGenerics); "+
 		"every second session is LATE: the late units (plain func/type/var lateShow, LateRec, lateVar and the generics LateBox, LateLen) are not declared at the start; the first operation on a consumer (7 generics whose body names a unit, one of them through a nested instance, one after a completed nested instance) first attempts the instantiation (in the scope of the operation): it must fail to compile like its textual specialisation and leave the instance caches of every generic still waiting for a unit unchanged; then the unit is declared and the operation proceeds as usual (must compile and agree with L1/L2/compiled Go; memoisation as usual); late sessions are evaluated by C35.FailModel (cases_fail_*.v), the others by C35.Model; "+
 		"each operation is evaluated as generic instance, as L1 textual specialisation (same interpreter), as L2 plain Go copy (gomacro and compiled Go); type instances get identity probes; "+
+		"a difference between the instance and a specialisation is a failure unless the generics-free plain-Go copy itself is mis-evaluated by gomacro with respect to compiled Go - either the instance agrees with compiled Go and the copy evaluated in the session does not, or the copy evaluated first in a fresh interpreter (same kind of scope) deviates from compiled Go exactly as the instance did - such cases are listed with their plain-Go input in extra.plain_go_divergences_of_gomacro; "+
+		"memo counts: an argument list is new when its instance is outside the closure (type arguments at any depth, declaration bodies) of every reference evaluated before; "+
 		"corpus/C35 (exact inputs of findings) first; an evaluation is non-trivial when the instance compiled and its driver returned a non-empty string; distinct by (canonical instance, scope, value seed)")
 	h := &harness{a: a, rep: rep, cat: catalogue()}
 	h.wd = vh.NewWatchdog(rep, 120*time.Second)
@@ -1466,8 +1674,13 @@ func main() {
 	close(stopBeat)
 	if err != nil {
 		rep.Fail(vh.Failure{Key: "C35:oracle-build", What: "the plain-Go copies do not compile with go build", Got: err.Error()})
+		h.decide(nil, &diverge)
 	} else {
+		handled := h.decide(want, &diverge)
 		for _, sr := range h.sites {
+			if handled[[2]int{sr.sess, sr.n}] {
+				continue
+			}
 			w, ok := want[fmt.Sprintf("s%d", sr.sess)][sr.n]
 			if !ok {
 				rep.Fail(vh.Failure{Key: sr.key, What: "no compiled-Go output for the site", Input: sr.op})
